@@ -3,6 +3,9 @@ package main
 import (
 	"fmt"
 	"runtime/debug"
+	"strings"
+
+	"golang.org/x/tools/go/ssa"
 )
 
 // Cooperative threads. Every symbolic goroutine (including the harness main) runs in its own host
@@ -28,6 +31,7 @@ type event struct {
 }
 
 type Thread struct {
+	stack  []*ssa.Function
 	id     int
 	resume chan bool
 	done   bool
@@ -178,8 +182,23 @@ func (ex *Exec) blockedDesc() string {
 }
 
 // park suspends the current thread; it is resumed when ready() (nil = immediately runnable).
+// site names the innermost function of the code under test (not harness, not library) the thread is executing.
+func (t *Thread) site() string {
+	for i := len(t.stack) - 1; i >= 0; i-- {
+		f := t.stack[i]
+		if f.Pkg != nil && strings.HasSuffix(f.Pkg.Pkg.Path(), "/trzsz") && !strings.Contains(f.Name(), "zz") {
+			n := f.String()
+			return n[strings.LastIndex(n, "/")+1:]
+		}
+	}
+	return "harness"
+}
+
 func (ex *Exec) park(ready func() bool, desc string) {
 	t := ex.sch.cur
+	if ready != nil {
+		desc = desc + " in " + t.site()
+	}
 	ex.sch.events <- event{kind: evBlocked, ready: ready, desc: desc}
 	if !<-t.resume {
 		panic(threadKilled{})
@@ -193,6 +212,17 @@ func (ex *Exec) wait(ready func() bool, desc string) {
 }
 
 func (ex *Exec) yield() { ex.park(nil, "yield") }
+
+// liveSites lists the blocking sites of all unfinished threads other than the harness main thread.
+func (ex *Exec) liveSites() []string {
+	var out []string
+	for _, t := range ex.sch.threads {
+		if t.id != 0 && !t.done {
+			out = append(out, t.desc)
+		}
+	}
+	return out
+}
 
 func (ex *Exec) liveThreads() int {
 	n := 0
